@@ -672,6 +672,11 @@ fn record_shape(input: &[u8], max: u32, o: Outcome, r: &mut Report) {
                 Outcome::Flagged => 3,
             };
             r.case_bytes(&[h.ty.min(0x12), h.flags, len_bucket(h.len, max), sidc, input[5] >> 7, tail, oc], true);
+            if r.samples.len() < 3 && input.len() <= 64 {
+                let outcome = ["header_err", "body_err", "frame", "flagged"][oc as usize];
+                r.sample(serde_json::json!({"input_hex": input.iter().map(|b| format!("{b:02x}")).collect::<String>(),
+                    "max_frame_size": max, "outcome": outcome}));
+            }
         }
     }
 }
